@@ -40,3 +40,68 @@ Definition type_names_okb (S : schema) : bool :=
     validated operation except a nullable variable with a default that is explicitly given null
     (and then collectFields reports an error for the directive and leaves the selection out). *)
 Definition dirs_evaluable (D : document) (E : env) : bool := forallb (dirs_ok E) (all_sels D).
+
+(** ** levels of field nesting, fragment spreads expanded (ArgLevelProofs.v; Properties/C01.v,
+    C01_doc_ok_intro).  [lv D sels n]: at most [n] levels; a derivation exists only when the
+    expansion terminates.  [levels D k sels] computes the number with [k] as fuel of the
+    expansion ([None]: the fuel ran out). *)
+Section LevelDefs.
+  Variable D : document.
+  Inductive lv : list selection -> nat -> Prop :=
+  | lv_nil n : lv [] n
+  | lv_field a f p d sub r n : lv sub n -> lv r (Datatypes.S n) -> lv (SField a f p d sub :: r) (Datatypes.S n)
+  | lv_inline tc p d sub r n : lv sub n -> lv r n -> lv (SInline tc p d sub :: r) n
+  | lv_spread_unknown f p d r n : s_fragment D f = None -> lv r n -> lv (SSpread f p d :: r) n
+  | lv_spread f p d fr r n : s_fragment D f = Some fr -> lv (fr_sels fr) n -> lv r n -> lv (SSpread f p d :: r) n.
+
+End LevelDefs.
+
+Definition omax (a b : option nat) : option nat :=
+  match a, b with Some x, Some y => Some (Nat.max x y) | _, _ => None end.
+
+Section LevelCompute.
+  Variable D : document.
+  Fixpoint levels_sel (k : nat) : selection -> option nat :=
+    fix ls (s : selection) : option nat :=
+      match s with
+      | SField _ _ _ _ sub => option_map Datatypes.S (fold_right (fun x acc => omax (ls x) acc) (Some 0%nat) sub)
+      | SInline _ _ _ sub => fold_right (fun x acc => omax (ls x) acc) (Some 0%nat) sub
+      | SSpread f _ _ =>
+          match k with
+          | O => None
+          | Datatypes.S k' =>
+              match s_fragment D f with
+              | Some fr => fold_right (fun x acc => omax (levels_sel k' x) acc) (Some 0%nat) (fr_sels fr)
+              | None => Some 0%nat
+              end
+          end
+      end.
+  Definition levels (k : nat) (sels : list selection) : option nat :=
+    fold_right (fun x acc => omax (levels_sel k x) acc) (Some 0%nat) sels.
+
+End LevelCompute.
+
+Section GroupLocal.
+  Variables (S : schema) (D : document).
+  (** what a group needs apart from the recursion: it is not empty, its field is __typename, a
+      meta-field, or defined with an output type, and its arguments do not make the coercion code
+      panic; [Q] is required again of the merged sub-selections, for every possible object type *)
+  Definition group_local (Q : name -> list selection -> Prop) (ot : name) (kf : name * list fnode) : Prop :=
+    match snd kf with
+    | [] => False
+    | f :: _ =>
+        match s_field_kind S ot (fn_name f) with
+        | SFTypename | SFMeta => True
+        | SFUndefined => False
+        | SFType t =>
+            args_total S D ot f = true /\
+            match lookup_type S (sty_base t) with
+            | Some (NScalar _) | Some (NEnum _) => True
+            | Some (NObject _ _) | Some (NInterface _) | Some (NUnion _) =>
+                forall ot', In ot' (s_possible S (sty_base t)) -> Q ot' (s_merge_selection_sets (snd kf))
+            | Some NInput | None => False
+            end
+        end
+    end.
+
+End GroupLocal.
